@@ -240,41 +240,52 @@ def takeDigits : Bytes → Bytes × Bytes
 
 def digitsVal (ds : Bytes) : Nat := ds.foldl (fun acc c => acc * 10 + (c - 48)) 0
 
+/-- an optional sign in front of the exponent's digits: (negative?, rest) -/
+def stripSign : Bytes → Bool × Bytes
+  | 45 :: x => (true, x)
+  | 43 :: x => (false, x)
+  | x => (false, x)
+
+/-- the exponent part that follows the mantissa (`e` / `E`, optional sign, digits, nothing else); the
+    empty rest is exponent 0; `none` = rejected by Rust -/
+def expOf : Bytes → Option Int
+  | [] => some 0
+  | c :: r =>
+    if c == 101 || c == 69 then
+      if (takeDigits (stripSign r).2).1.length = 0 || (takeDigits (stripSign r).2).2.length ≠ 0 then none
+      else some (if (stripSign r).1 then - (digitsVal (takeDigits (stripSign r).2).1 : Int)
+                 else (digitsVal (takeDigits (stripSign r).2).1 : Int))
+    else none
+
+/-- the fraction part: the digits after a `.`, and what follows them -/
+def fracOf : Bytes → Bytes × Bytes
+  | 46 :: r => takeDigits r
+  | r1 => ([], r1)
+
+/-- `inf` / `infinity` / `nan`, any letter case -/
+def isSpecialWord (s : Bytes) : Bool :=
+  s.map upperAscii == s2b "INF" || s.map upperAscii == s2b "INFINITY" || s.map upperAscii == s2b "NAN"
+
+/-- the correctly rounded bit pattern of `ip.fp × 10^ex` -/
+def decBits (ip fp : Bytes) (ex : Int) : Nat :=
+  let m := digitsVal (ip ++ fp)
+  let nd := ip.length + fp.length
+  let e10 : Int := ex - (fp.length : Int)
+  if m = 0 then 0
+  else if e10 > 400 then infBits
+  else if e10 + (nd : Int) < -400 then 0
+  else if e10 ≥ 0 then f64OfRat (m * 10 ^ e10.toNat) 1
+  else f64OfRat m (10 ^ (-e10).toNat)
+
 /-- the unsigned part of a float literal: `inf`/`infinity`/`nan` (any case) or decimal with
     optional fraction and exponent; `none` = rejected by Rust -/
 def parseF64Abs (s : Bytes) : Option Nat :=
-  let u := s.map upperAscii
-  if u == s2b "INF" || u == s2b "INFINITY" then some infBits
-  else if u == s2b "NAN" then some nanBits
-  else
-    let (ip, r1) := takeDigits s
-    let (fp, r2) : Bytes × Bytes := match r1 with
-      | 46 :: r => takeDigits r
-      | _ => ([], r1)
-    if ip.length + fp.length = 0 then none else
-    let expo : Option Int := match r2 with
-      | [] => some 0
-      | c :: r =>
-        if c == 101 || c == 69 then
-          let (neg, r') : Bool × Bytes := match r with
-            | 45 :: x => (true, x)
-            | 43 :: x => (false, x)
-            | x => (false, x)
-          let (ed, r'') := takeDigits r'
-          if ed.length = 0 || r''.length ≠ 0 then none
-          else some (if neg then - (digitsVal ed : Int) else (digitsVal ed : Int))
-        else none
-    match expo with
+  if s.map upperAscii == s2b "INF" || s.map upperAscii == s2b "INFINITY" then some infBits
+  else if s.map upperAscii == s2b "NAN" then some nanBits
+  else if (takeDigits s).1.length + (fracOf (takeDigits s).2).1.length = 0 then none
+  else match expOf (fracOf (takeDigits s).2).2 with
     | none => none
-    | some ex =>
-      let m := digitsVal (ip ++ fp)
-      let nd := ip.length + fp.length
-      let e10 : Int := ex - (fp.length : Int)
-      if m = 0 then some 0
-      else if e10 > 400 then some infBits
-      else if e10 + (nd : Int) < -400 then some 0
-      else if e10 ≥ 0 then some (f64OfRat (m * 10 ^ e10.toNat) 1)
-      else some (f64OfRat m (10 ^ (-e10).toNat))
+    | some ex => some (decBits (takeDigits s).1 (fracOf (takeDigits s).2).1 ex)
 
 /-- `str::parse::<f64>` → bit pattern -/
 def parseF64 : Bytes → Option Nat
@@ -308,7 +319,7 @@ structure Cmd where
 
 /-- payload-free error texts produced after the arity test -/
 inductive Lit where
-  | invalidFormat | expectedBulk
+  | invalidFormat | expectedBulk | expectedUnsigned
   | notInt | notFloat | u64Empty | u64Invalid | u64Overflow
   | syntax | nxxx | dbRange
   | setEx | setPx | setExat | setPxat
@@ -329,6 +340,7 @@ inductive Lit where
 def Lit.text : Lit → Bytes
   | .invalidFormat => s2b "Invalid command format"
   | .expectedBulk => s2b "Expected bulk string"
+  | .expectedUnsigned => s2b "Expected unsigned integer"
   | .notInt => s2b "ERR value is not an integer or out of range"
   | .notFloat => s2b "ERR value is not a valid float"
   | .u64Empty => s2b "cannot parse integer from empty string"
@@ -449,6 +461,8 @@ inductive ArgKind where
   | u64   -- `extract_u64`: the error is the text of the `ParseIntError`
   | flt   -- `extract_float`
   | usz   -- `extract_string(..).parse::<usize>()` with the generic integer error
+  | kw    -- `extract_string(..).to_uppercase()`: a word compared as a keyword
+  | u32   -- `extract_string(..).parse::<u32>()`
   deriving DecidableEq, Repr
 
 /-- an argument slot: its kind and (Lua translator) the error text used instead of the generic one -/
@@ -479,6 +493,10 @@ def Arg.extract (a : Arg) (v : Bytes) : Except BErr Tok :=
   | .usz => match parseUnsigned u64Max v with
     | .ok n => .ok (.n n)
     | .error _ => fail .notInt
+  | .kw => .ok (.s (upper (lossy v)))
+  | .u32 => match parseUnsigned u32Max (lossy v) with
+    | .ok n => .ok (.n n)
+    | .error _ => fail .notInt
 
 def aIntE (l : Lit) : Arg := { kind := .int, onErr := some l }
 def aStr : Arg := { kind := .str }
@@ -486,6 +504,8 @@ def aSds : Arg := { kind := .sds }
 def aInt : Arg := { kind := .int }
 def aU64 : Arg := { kind := .u64 }
 def aFlt : Arg := { kind := .flt }
+def aKw : Arg := { kind := .kw }
+def aUsz : Arg := { kind := .usz }
 
 /-- extract a fixed sequence of slots, left to right, first error wins; surplus/missing
     arguments are `unreachable` (the arity test has run) -/
@@ -649,8 +669,6 @@ def headVariant : List Bytes → List Bytes → Bool
 def prefixV (n : Nat) (tail : List Bytes → List Bytes → Bool) (a b : List Bytes) : Bool :=
   a.take n == b.take n && tail (a.drop n) (b.drop n)
 
-/-! ## table entries -/
-
 inductive Arity where
   | any
   | exact (n : Nat)
@@ -669,16 +687,162 @@ def Arity.ok : Arity → Nat → Bool
   | .evenAtLeast n, k => n ≤ k && k % 2 == 0
   | .oddAtLeast n, k => n ≤ k && k % 2 == 1
 
+/-! ## generic body shape: fixed slots, optional slots, a tail, a finishing function
+
+  Every hand-written body below is (proved to be, `Lemmas/GrammarShape.lean`) an instance of `runGen`:
+  the leading slots are extracted left to right, then the optional ones that are present, then the
+  tail (a `Vec`, pairs, an option scan, leading flags + pairs, or the raw rest), and the finishing
+  function builds the command from the tokens (range checks, option conflicts, constant fields).
+  The structural part (`pre`, `opt`, `tail`) is what `./check C16` compares with the shape descriptor
+  extracted from the match arms of the source. -/
+
+/-- what an option scan answers for a word that is not in its table -/
+inductive Unk where
+  | lit (l : Lit)      -- `_ => return Err("…")`
+  | fmt (f : Fmt)      -- `_ => return Err(format!("…{}", opt))`
+  deriving DecidableEq, Repr
+
+def Unk.fn : Unk → Bytes → Option BErr
+  | .lit l, _ => some (.lit l)
+  | .fmt f, w => some (.fmt f w)
+
+inductive Tail where
+  | none                                                  -- no further argument (the arity rule excludes them)
+  | ignore                                                -- further arguments are not looked at
+  | many (a : Arg)                                        -- a `Vec`
+  | pairs (a b : Arg)                                     -- a `Vec` of pairs
+  | scan (tbl : List OptSpec) (unk : Unk)                 -- `while i < len { match opt { … } }`
+  | flagsPairs (flags : List Bytes) (odd : Lit) (a b : Arg)   -- leading flags, then pairs (ZADD)
+  | raw                                                   -- handed to the finishing function as it is
+
+/-- what the tail yields -/
+inductive TailV where
+  | none
+  | toks (n : Nat) (ts : List Tok)
+  | seen (s : Seen)
+  | flags (fl : List Bytes) (n : Nat) (ts : List Tok)
+  | raw (args : List Bytes)
+
+/-- a test on the options an option scan has seen (indices into the option table) -/
+inductive Cond where
+  | has (i : Nat)
+  | and (a b : Cond)
+  | or (a b : Cond)
+  | countGt (is : List Nat) (n : Nat)      -- more than `n` of these options were given
+  deriving DecidableEq, Repr
+
+def Cond.eval (s : Seen) : Cond → Bool
+  | .has i => s.has i
+  | .and a b => a.eval s && b.eval s
+  | .or a b => a.eval s || b.eval s
+  | .countGt is n => decide ((is.map s.has).count true > n)
+
+/-- the literal of the first conflict rule that fires -/
+def firstFiring (s : Seen) : List (Cond × Lit) → Option Lit
+  | [] => none
+  | (c, l) :: rest => if c.eval s then some l else firstFiring s rest
+
+/-- a finishing function given by its conflict rules: the literal of the first rule that fires, else the
+    command -/
+def finWithChecks (checks : List (Cond × Lit)) (build : Seen → Cmd) (s : Seen) : BRes :=
+  match firstFiring s checks with
+  | some l => .error (.lit l)
+  | none => .ok (build s)
+
+structure GenDesc where
+  dom : Arity                   -- the argument counts the body is written for (the arity rule of its entry implies it)
+  pre : List Arg
+  opt : List Arg := []
+  tail : Tail
+  fin : List Tok → TailV → BRes
+  ctors : List Bytes            -- the constructors `fin` can answer
+  finLits : List Lit := []      -- the error literals `fin` can answer
+  checks : List (Cond × Lit) := []   -- option-scan bodies: the conflict rules, in the order they are tested
+
+/-- the finishing function answers only the constructors and the error literals its descriptor declares
+    (`unreachable`: it was handed tokens of another shape, which `runGen` never does) -/
+def FinOk (d : GenDesc) : Prop :=
+  ∀ ts tv, match d.fin ts tv with
+    | .ok c => c.ctor ∈ d.ctors
+    | .error e => e = .unreachable ∨ ∃ l ∈ d.finLits, e = .lit l
+
+/-- the conflict rules of an option-scan body are exactly what its finishing function tests: it answers a
+    command iff no rule fires, and otherwise the literal of the FIRST rule that fires; bodies without an
+    option scan declare no rules -/
+def ChecksOk (d : GenDesc) : Prop :=
+  match d.tail with
+  | .scan _ _ =>
+    ∀ ts s, match d.fin ts (.seen s) with
+      | .ok _ => firstFiring s d.checks = none
+      | .error (.lit l) => firstFiring s d.checks = some l
+      | .error .unreachable => True
+      | .error _ => False
+  | _ => d.checks = []
+
+/-- the leading slots, left to right; the rest of the arguments -/
+def takeSlots : List Arg → List Bytes → Except BErr (List Tok × List Bytes)
+  | [], vs => .ok ([], vs)
+  | _ :: _, [] => .error .unreachable
+  | a :: as, v :: vs => do
+    let t ← a.extract v
+    let r ← takeSlots as vs
+    pure (t :: r.1, r.2)
+
+/-- the optional slots that are present -/
+def takeOpt : List Arg → List Bytes → Except BErr (List Tok × List Bytes)
+  | a :: as, v :: vs => do
+    let t ← a.extract v
+    let r ← takeOpt as vs
+    pure (t :: r.1, r.2)
+  | _, vs => .ok ([], vs)
+
+def Tail.run : Tail → List Bytes → Except BErr TailV
+  | .none, rest => if rest.isEmpty then .ok .none else .error .unreachable
+  | .ignore, _ => .ok .none
+  | .many a, rest => do
+    let us ← extractAll a rest
+    pure (.toks rest.length us)
+  | .pairs a b, rest => do
+    let us ← extractPairs a b rest
+    pure (.toks (rest.length / 2) us)
+  | .scan tbl unk, rest => do
+    let s ← scanOpts tbl unk.fn rest
+    pure (.seen s)
+  | .flagsPairs flags odd a b, rest =>
+    if (takeFlags flags rest).2.length % 2 != 0 || (takeFlags flags rest).2.length == 0 then .error (.lit odd)
+    else do
+      let us ← extractPairs a b (takeFlags flags rest).2
+      pure (.flags (takeFlags flags rest).1 ((takeFlags flags rest).2.length / 2) us)
+  | .raw, rest => .ok (.raw rest)
+
+/-- the generic body: an argument count outside `dom` is `unreachable` (the arity test has run) -/
+def runGen (d : GenDesc) (args : List Bytes) : BRes :=
+  match d.dom.ok args.length with
+  | false => .error .unreachable
+  | true => do
+    let p ← takeSlots d.pre args
+    let o ← takeOpt d.opt p.2
+    let tv ← d.tail.run o.2
+    d.fin (p.1 ++ o.1) tv
+
+/-! ## table entries -/
+
 /-- a body written as a function, with the relation "`a` and `b` differ only in the letter case
     of words in keyword position" and the proof that the body cannot tell them apart -/
 structure CustomBody where
   f : List Bytes → BRes
   kwv : List Bytes → List Bytes → Bool
   sound : ∀ a b, kwv a b = true → f a = f b
+  /-- the shape of the body: `f` IS the generic body over it -/
+  desc : GenDesc
+  desc_ok : ∀ args, f args = runGen desc args
+  fin_ok : FinOk desc
+  checks_ok : ChecksOk desc
 
 /-- a body without keyword positions -/
-def CustomBody.plain (f : List Bytes → BRes) : CustomBody :=
-  ⟨f, fun a b => a == b, by intro a b h; simp at h; rw [h]⟩
+def CustomBody.plain (d : GenDesc) (f : List Bytes → BRes) (h : ∀ args, f args = runGen d args) (hf : FinOk d)
+    (hc : ChecksOk d) : CustomBody :=
+  ⟨f, fun a b => a == b, by intro a b h; simp at h; rw [h], d, h, hf, hc⟩
 
 inductive Body where
   | const (ctor : Bytes)                                  -- arguments are not looked at
